@@ -460,6 +460,41 @@ def _reader_obligation(prog: Program, res: Result, fn: Func, sub: ast.Subscript)
         if isinstance(a, ast.Subscript) and isinstance(a.value, ast.Attribute) and a.value.attr == "ops" \
                 and isinstance(a.slice, ast.Constant) and a.slice.value == 0:
             src = norm(a.value.value)
+    if src is None and isinstance(idx, ast.Call) and isinstance(idx.func, ast.Name) and idx.func.id == "type" and len(idx.args) == 1 \
+            and isinstance(idx.args[0], ast.Name):
+        # MAPPING[type(v)] with v running over <X>.ops (comprehension or for loop): the table is applied to EVERY operator
+        # of the comparison.  `not (a < b < c)` is `a >= b or b >= c`, never `a >= b >= c`: elementwise negation is the
+        # negation only for a single operator, which then has to be a fact on the path (or of the selecting template).
+        v = idx.args[0].id
+        over = None
+        n = sub
+        while n is not None and n is not fn.node:
+            gens = getattr(n, "generators", None)
+            for g in gens or []:
+                if any(isinstance(t, ast.Name) and t.id == v for t in ast.walk(g.target)):
+                    over = g.iter
+            if isinstance(n, (ast.For, ast.AsyncFor)) and any(isinstance(t, ast.Name) and t.id == v for t in ast.walk(n.target)):
+                over = n.iter
+            if over is not None:
+                break
+            n = parent(n)
+        while isinstance(over, ast.Call) and over.args and isinstance(over.func, ast.Name) and over.func.id in ("list", "tuple", "iter", "reversed", "enumerate"):
+            over = over.args[0]
+        if isinstance(over, ast.Attribute) and over.attr == "ops":
+            chain = norm(over.value)
+            text = norm(fn.node).replace(" ", "")
+            single = any(s in text for s in (f"len({chain}.ops)==1", f"len({chain}.comparators)==1", f"len({chain}.ops)<2", f"len({chain}.comparators)<2"))
+            if not single:
+                for c in walk_own(fn.node):
+                    if isinstance(c, ast.Call) and ast_class_name(prog, fn, c.func) == "Compare":
+                        ckw = {k.arg: k.value for k in c.keywords}
+                        if any(isinstance(ckw.get(f_), ast.List) and len(ckw[f_].elts) == 1 for f_ in ("comparators", "ops")) \
+                                and not any(isinstance(x, ast.Name) and x.id == v for x in ast.walk(c)):
+                            single = True
+            res.decide(single, "R17.1", fn.loc(sub), fn.fq, f"{short(sub, 70)} # negation table applied to every operator of {chain}",
+                       f"{chain} is restricted to a single operator" if single else
+                       f"every operator of the chain {chain}.ops is negated: `a < b < c` would become `a >= b >= c` (its negation is `a >= b or b >= c`)")
+            return
     if src is None:
         res.undecided("R17.1", fn.loc(sub), fn.fq, norm(sub), "index is not type(<compare>.ops[0])")
         return
@@ -1738,6 +1773,8 @@ VARIANTS = [
     Variant("negation-flips-operator-in-place", "FIRE", "fixes",
             "        return ast.Compare(\n            left=node.left, ops=[opposite_operator_type()], comparators=node.comparators\n        )\n",
             "        node.ops = [opposite_operator_type()]\n        return node\n", "R17.8"),
+    Variant("every-operator-of-a-chain-negated", "FIRE", "fixes", '    if core.match_template(\n        node, ast.Compare(ops=[tuple(constants.REVERSE_OPERATOR_MAPPING)], comparators=[object])\n    ):\n        opposite_operator_type = constants.REVERSE_OPERATOR_MAPPING[type(node.ops[0])]\n        return ast.Compare(\n            left=node.left, ops=[opposite_operator_type()], comparators=node.comparators\n        )\n', '    if isinstance(node, ast.Compare) and all(\n        type(operator) in constants.REVERSE_OPERATOR_MAPPING for operator in node.ops\n    ):\n        opposite_operators = [\n            constants.REVERSE_OPERATOR_MAPPING[type(operator)]() for operator in node.ops\n        ]\n        return ast.Compare(left=node.left, ops=opposite_operators, comparators=node.comparators)\n', "R17.1"),
+    Variant("elementwise-negation-of-a-single-operator", "SILENT", "fixes", '    if core.match_template(\n        node, ast.Compare(ops=[tuple(constants.REVERSE_OPERATOR_MAPPING)], comparators=[object])\n    ):\n        opposite_operator_type = constants.REVERSE_OPERATOR_MAPPING[type(node.ops[0])]\n        return ast.Compare(\n            left=node.left, ops=[opposite_operator_type()], comparators=node.comparators\n        )\n', '    if isinstance(node, ast.Compare) and len(node.ops) == 1 and all(\n        type(operator) in constants.REVERSE_OPERATOR_MAPPING for operator in node.ops\n    ):\n        opposite_operators = [\n            constants.REVERSE_OPERATOR_MAPPING[type(operator)]() for operator in node.ops\n        ]\n        return ast.Compare(left=node.left, ops=opposite_operators, comparators=node.comparators)\n'),
     Variant("negation-table-gt-lt", "FIRE", "constants", "    ast.Gt: ast.LtE,\n", "    ast.Gt: ast.Lt,\n", "R17.1"),
     Variant("demorgan-and-stays-and", "FIRE", "fixes",
             "        return ast.BoolOp(op=ast.Or(), values=[_negate_condition(child) for child in node.values])",
